@@ -68,7 +68,10 @@ def run(ctx):
                 "drop both ways; join along an existing / a new dimension; broadcast against 4 other actions) on node arrays "
                 "(2),(3),(4),(2,2),(2,3) with and without coordinates - explicit labels ascending, DESCENDING and SHUFFLED (30,10,20) - "
                 "holding 3-vectors, plus node arrays with a dimension of 11..13 nodes reduced by concatenate/stack/flatten/reduce(first)/sum "
-                "un-batched and with 11 per batch (one node with >= 11 inputs); reduce with an order-sensitive batchable user payload (first argument); plus programs of depth 2"
+                "un-batched and with 11 per batch (one node with >= 11 inputs); plus (2,3) sources broadcast against an action "
+                "holding the same dimensions in the OPPOSITE order (alone / new dimension first / last; the node array becomes a "
+                "transposed view) followed by every 'mid' operation, and by two thinned steps (map, scalar arithmetic, expand, "
+                "isel, then a reduction); action arithmetic with the operand's dimensions in the opposite order; reduce with an order-sensitive batchable user payload (first argument); plus programs of depth 2"
                 f"{'' if ctx.quick else ' and 3'} with thinned parameters on the inner steps; one evaluation = one executed "
                 "step whose contract TLC evaluates on the logged (receiver, operand, result) denotations; non-trivial = batched, "
                 "keep_dim, second operand or a step after another step",
